@@ -87,6 +87,22 @@ class AloneSuite(PairedSuite):
             yield {"a": a, "oracle": {"n": n, "peal": peal, "gap": gap, "look_to": fstr(look_to + c)}}
         for i in range(30 if tier == "quick" else 300):      # a second touch after a human has bent the first
             yield self.second_touch(rng)
+        for i in range(16 if tier == "quick" else 160):
+            # server mode, spawned by Ringing Room AFTER somebody called Look to (--look-to-time): the touch is timed
+            # from that moment, not from the start of the process
+            n = rng.choice([4, 6, 8, 12])
+            spec = {"kind": "plain_hunt", "stage": n, "custom": None}
+            c = Fraction(rng.choice([1000, 1700000000]))
+            lt = c - Fraction(rng.randint(5, 140), 100)
+            evs = [ev(c, "global", [True] * n), ev(c + Fraction(11, 1000), "user_entered", 1, "Wheatley")]
+            for b in range(1, n + 1):
+                evs.append(ev(c + Fraction(12, 1000) + Fraction(b, 100000), "assign", b, 1))
+            iv = blow_interval(180, n)
+            nrows = 6
+            rh = {"kind": "wait", "inertia": 1.0, "peal_speed": 180, "gap": 1.0, "max": 15}
+            a = base(spec, n, rh, evs, lt + 3 + iv * (nrows * n + nrows // 2) + Fraction(1, 3000), origin=c)
+            a.update({"name": "Wheatley", "instance": 9, "look_to_time": fstr(lt)})
+            yield {"a": a, "oracle": {"n": n, "peal": 180, "gap": 1.0, "look_to": fstr(lt)}}
 
     def second_touch(self, rng):
         n = rng.choice([5, 6, 8])
